@@ -34,16 +34,17 @@ struct PACKED IncSolver { void *vptr; void *bs; size_t m; struct vec *cs; size_t
 #define V(p) ((struct Variable *)(p))
 #define S(p) ((struct IncSolver *)(p))
 #define ZERO_UPPERBOUND (-1e-10)
+/* the accept-or-throw scan has passed for the ghost constraint K in the current state */
+#define SCAN_OK (!(verif_Kslack < ZERO_UPPERBOUND))
 
 /* ---- ghost state ---------------------------------------------------------------------------
  * verif_K        the ghost constraint (an arbitrary element cs[K]); verif_Kslack: the value slack()
  *                returns for it in the CURRENT solver state.  Every state-changing callee contract
  *                lists verif_Kslack in its assigns clause (it is havocked when the state changes).
- * verif_scan_ok  "the accept-or-throw scan has passed for K in the current state"
  * verif_final_ok "the finalPosition fields equal position() in the current state"          */
 void *verif_K;
+size_t verif_K_idx;   /* its index in the solver's constraint vector */
 double verif_Kslack;
-_Bool verif_scan_ok;
 _Bool verif_final_ok;
 
 /* ============================================================ mirror layout (CBMC side) */
@@ -126,7 +127,7 @@ __CPROVER_assigns()
 /* Blocks::cleanup(): changes the block list (not under contract here; C15 has its bounded job) */
 void w_blocks_cleanup(void *bs)
 __CPROVER_ensures(__CPROVER_old(verif_thrown) ==> verif_thrown)
-__CPROVER_assigns(verif_Kslack, verif_scan_ok, verif_final_ok, verif_thrown)
+__CPROVER_assigns(verif_Kslack, verif_final_ok, verif_thrown)
 ;
 /* copyResult(): stores position() into finalPosition; does not touch solver state */
 void w_copyResult(void *s)
@@ -148,7 +149,7 @@ __CPROVER_assigns(verif_final_ok)
     __CPROVER_is_fresh(S(s)->cs->d, S(s)->cs->n * sizeof(void *)) && \
     (K) < S(s)->m && \
     __CPROVER_is_fresh(((void **)S(s)->cs->d)[K], sizeof(struct Constraint)) && \
-    verif_K == ((void **)S(s)->cs->d)[K])
+    verif_K == ((void **)S(s)->cs->d)[K] && verif_K_idx == (K))
 #endif
 
 #if defined(JOB_incsatisfy_tail)
@@ -156,9 +157,9 @@ _Bool w_incsatisfy_tail(void *s, size_t K)
 __CPROVER_requires(VALID_SOLVER_K(s, K))
 /* normal return: the ghost constraint passed the scan in the state that is returned, and the final
  * positions were copied from that state */
-__CPROVER_ensures(!verif_thrown ==> (!(verif_Kslack < ZERO_UPPERBOUND) && verif_final_ok))
+__CPROVER_ensures(!verif_thrown ==> (SCAN_OK && verif_final_ok))
 __CPROVER_ensures(__CPROVER_old(verif_thrown) ==> verif_thrown)
-__CPROVER_assigns(verif_Kslack, verif_scan_ok, verif_final_ok, verif_thrown)
+__CPROVER_assigns(verif_Kslack, verif_final_ok, verif_thrown)
 ;
 void h_incsatisfy_tail(void) { void *s; size_t K; w_incsatisfy_tail(s, K); VERIF_CANARY; }
 #endif
@@ -166,9 +167,9 @@ void h_incsatisfy_tail(void) { void *s; size_t K; w_incsatisfy_tail(s, K); VERIF
 #if defined(JOB_satisfy_tail)
 _Bool w_satisfy_tail(void *s, size_t K)
 __CPROVER_requires(VALID_SOLVER_K(s, K))
-__CPROVER_ensures(!verif_thrown ==> (!(verif_Kslack < ZERO_UPPERBOUND) && verif_final_ok))
+__CPROVER_ensures(!verif_thrown ==> (SCAN_OK && verif_final_ok))
 __CPROVER_ensures(__CPROVER_old(verif_thrown) ==> verif_thrown)
-__CPROVER_assigns(verif_Kslack, verif_scan_ok, verif_final_ok, verif_thrown)
+__CPROVER_assigns(verif_Kslack, verif_final_ok, verif_thrown)
 ;
 void h_satisfy_tail(void) { void *s; size_t K; w_satisfy_tail(s, K); VERIF_CANARY; }
 #endif
@@ -176,10 +177,10 @@ void h_satisfy_tail(void) { void *s; size_t K; w_satisfy_tail(s, K); VERIF_CANAR
 #if defined(JOB_refine_tail)
 void w_refine_tail(void *s, size_t K)
 __CPROVER_requires(VALID_SOLVER_K(s, K))
-__CPROVER_ensures(!verif_thrown ==> !(verif_Kslack < ZERO_UPPERBOUND))
+__CPROVER_ensures(!verif_thrown ==> SCAN_OK)
 __CPROVER_ensures(__CPROVER_old(verif_thrown) ==> verif_thrown)
 /* the tail changes nothing but the exception flag */
-__CPROVER_ensures(verif_Kslack == __CPROVER_old(verif_Kslack))
+__CPROVER_ensures(FEQ(verif_Kslack, __CPROVER_old(verif_Kslack)))
 __CPROVER_assigns(verif_thrown)
 ;
 void h_refine_tail(void) { void *s; size_t K; w_refine_tail(s, K); VERIF_CANARY; }
@@ -190,15 +191,15 @@ void h_refine_tail(void) { void *s; size_t K; w_refine_tail(s, K); VERIF_CANARY;
 /* satisfy(): on normal return the scan holds for K in the resulting state and finals are current
  * (proved by the tail jobs); it changes the state */
 _Bool w_satisfy(void *s)
-__CPROVER_ensures(!verif_thrown ==> (verif_scan_ok && verif_final_ok))
+__CPROVER_ensures(!verif_thrown ==> (SCAN_OK && verif_final_ok))
 __CPROVER_ensures(__CPROVER_old(verif_thrown) ==> verif_thrown)
-__CPROVER_assigns(verif_Kslack, verif_scan_ok, verif_final_ok, verif_thrown)
+__CPROVER_assigns(verif_Kslack, verif_final_ok, verif_thrown)
 ;
 /* refine(): changes the state; on normal return its own scan holds; finals are stale */
 void w_refine(void *s)
-__CPROVER_ensures(!verif_thrown ==> verif_scan_ok)
+__CPROVER_ensures(!verif_thrown ==> SCAN_OK)
 __CPROVER_ensures(__CPROVER_old(verif_thrown) ==> verif_thrown)
-__CPROVER_assigns(verif_Kslack, verif_scan_ok, verif_final_ok, verif_thrown)
+__CPROVER_assigns(verif_Kslack, verif_final_ok, verif_thrown)
 ;
 void w_copyResult(void *s)
 __CPROVER_ensures(verif_final_ok)
@@ -206,21 +207,25 @@ __CPROVER_assigns(verif_final_ok)
 ;
 /* Blocks::cost() and Blocks::size(): read-only */
 double w_blocks_cost(void *bs)
+__CPROVER_requires(1)
+__CPROVER_ensures(1)
 __CPROVER_assigns()
 ;
 size_t w_blocks_size(void *bs)
+__CPROVER_requires(1)
+__CPROVER_ensures(1)
 __CPROVER_assigns()
 ;
 #define VALID_SOLVER(s) (__CPROVER_is_fresh(s, sizeof(struct IncSolver)))
 _Bool w_incsolve(void *s)
 __CPROVER_requires(VALID_SOLVER(s))
-__CPROVER_ensures(!verif_thrown ==> (verif_scan_ok && verif_final_ok))
-__CPROVER_assigns(verif_Kslack, verif_scan_ok, verif_final_ok, verif_thrown)
+__CPROVER_ensures(!verif_thrown ==> (SCAN_OK && verif_final_ok))
+__CPROVER_assigns(verif_Kslack, verif_final_ok, verif_thrown)
 ;
 _Bool w_solve(void *s)
 __CPROVER_requires(VALID_SOLVER(s))
-__CPROVER_ensures(!verif_thrown ==> (verif_scan_ok && verif_final_ok))
-__CPROVER_assigns(verif_Kslack, verif_scan_ok, verif_final_ok, verif_thrown)
+__CPROVER_ensures(!verif_thrown ==> (SCAN_OK && verif_final_ok))
+__CPROVER_assigns(verif_Kslack, verif_final_ok, verif_thrown)
 ;
 void h_incsolve(void) { void *s; w_incsolve(s); VERIF_CANARY; }
 void h_solve(void) { void *s; w_solve(s); VERIF_CANARY; }
@@ -260,8 +265,8 @@ void h_copyResult_loop(void)
     for (size_t i = 0; i < NMAX; i++) {
         var[i].block = &blk[i]; arr[i] = &var[i];
         /* position() must be a number (COLA_ASSERT in the loop); assume non-NaN inputs and scale != 0 */
-        __CPROVER_assume(var[i].scale == 1.0 && blk[i].ps.scale == 1.0 && var[i].offset == (double)(int)var[i].offset &&
-                         blk[i].posn == (double)(int)blk[i].posn);
+        int oi, pi;   /* integer-valued offsets and block positions: position() is then exact */
+        __CPROVER_assume(var[i].scale == 1.0 && blk[i].ps.scale == 1.0 && var[i].offset == (double)oi && blk[i].posn == (double)pi);
     }
     vs.d = arr; vs.n = n; vs.cap = NMAX; sol.vs = &vs; sol.n = n;
     struct Variable before[NMAX];
@@ -301,7 +306,7 @@ __CPROVER_ensures(C(c)->right->in.n == __CPROVER_old(C(c)->right->in.n) + 1 &&
                   ((void **)C(c)->right->in.d)[C(c)->right->in.n - 1] == c)
 __CPROVER_ensures(C(c)->needsScaling == S(s)->needsScaling)
 /* nothing else: gap, the flag and the end points are untouched */
-__CPROVER_ensures(C(c)->gap == __CPROVER_old(C(c)->gap) && C(c)->unsatisfiable == __CPROVER_old(C(c)->unsatisfiable))
+__CPROVER_ensures(FEQ(C(c)->gap, __CPROVER_old(C(c)->gap)) && C(c)->unsatisfiable == __CPROVER_old(C(c)->unsatisfiable))
 __CPROVER_assigns(S(s)->m, C(c)->active, C(c)->needsScaling,
                   S(s)->inactive.n, ((void **)S(s)->inactive.d)[S(s)->inactive.n],
                   C(c)->left->out.n, ((void **)C(c)->left->out.d)[C(c)->left->out.n],
